@@ -63,7 +63,7 @@ def gitignores(tier: str) -> list[tuple[str, list[str]]]:
 # ------------------------------------------------------------------------------------------
 
 
-def trace_templates(respect: bool = True) -> list[tuple[str, str]]:
+def trace_templates(respect: bool = True, siblings: bool = False) -> list[tuple[str, str]]:
     import flowmark.file_resolver.resolver as R
     from flowmark.file_resolver import FileResolver, FileResolverConfig
 
@@ -79,36 +79,52 @@ def trace_templates(respect: bool = True) -> list[tuple[str, str]]:
             calls.append((self.origin if self.origin != "." else "", str(arg)))
             return False
 
-    real = R.load_gitignore
+    real, real_walk = R.load_gitignore, R.os.walk
+
+    def walk(top: Any, *a: Any, **kw: Any) -> Any:
+        for dp, dn, fn in real_walk(top, *a, **kw):
+            dn.sort()   # mk0sib is visited before mkone, mkzsib after it
+            yield dp, dn, fn
+
     try:
         (root / "mkone" / "mktwo").mkdir(parents=True)
         (root / "mkone" / "mktwo" / "mkfile.md").write_text("x\n")
+        if siblings:
+            for pre in ("mk0", "mkz"):
+                (root / f"{pre}sib" / f"{pre}sub").mkdir(parents=True)
+                (root / f"{pre}sib" / f"{pre}sub" / f"{pre}file.md").write_text("x\n")
         R.load_gitignore = lambda d: TraceSpec(d)
+        R.os.walk = walk
         res = FileResolver(FileResolverConfig(respect_gitignore=respect)).resolve([root])
-        if len(res) != 1:
+        if len(res) != (3 if siblings else 1):
             raise RuntimeError(f"marker tree resolved to {res}")
     finally:
         R.load_gitignore = real
+        R.os.walk = real_walk
         shutil.rmtree(base, ignore_errors=True)
     out = []
     for origin, arg in calls:
-        if any(m in arg for m in ("mkone", "mktwo", "mkfile")):
+        if siblings:
+            # calls about a sibling branch (before or after mkone in the walk) made on the spec of mkone's own .gitignore
+            if origin.startswith("mkone") and any(m in arg for m in ("mk0", "mkz")):
+                out.append((origin, arg.replace("mk0", "mkz")))
+        elif any(m in arg for m in ("mkone", "mktwo", "mkfile")):
             out.append((origin, arg))
     return sorted(set(out))
 
 
-def _template_term(arg: str, d1: Any, d2: Any, f: Any) -> Any:
+def _template_term(arg: str, d1: Any, d2: Any, f: Any, markers: tuple[str, str, str] = ("mkfile.md", "mkone", "mktwo")) -> Any:
     """'mkone/mktwo/' -> Concat(d1, '/', d2, '/')"""
     parts: list[Any] = []
     rest = arg
     while rest:
-        for marker, var in (("mkfile.md", f), ("mkone", d1), ("mktwo", d2)):
+        for marker, var in ((markers[0], f), (markers[1], d1), (markers[2], d2)):
             if rest.startswith(marker):
                 parts.append(var)
                 rest = rest[len(marker):]
                 break
         else:
-            i = min([rest.find(m) for m in ("mkfile.md", "mkone", "mktwo") if rest.find(m) > 0] or [len(rest)])
+            i = min([rest.find(m) for m in markers if rest.find(m) > 0] or [len(rest)])
             parts.append(z3.StringVal(rest[:i]))
             rest = rest[i:]
     return parts[0] if len(parts) == 1 else z3.Concat(*parts)
@@ -179,13 +195,17 @@ def formulas(lines: list[str], origin: str, templates: list[tuple[str, str]], d1
 # ------------------------------------------------------------------------------------------
 
 
-def replay(lines: list[str], origin_is_root: bool, d1: str, d2: str, f: str, respect: bool = True) -> dict[str, Any]:
+def replay(lines: list[str], origin_is_root: bool, d1: str, d2: str, f: str, respect: bool = True, gi_dir: str | None = None) -> dict[str, Any]:
+    """gi_dir: put the .gitignore in this other top-level directory (scope check: it must not reach d1/d2/f)"""
     base = Path(tempfile.mkdtemp(prefix="c18r_")).resolve()
     root = base / "root"
     try:
         (root / d1 / d2).mkdir(parents=True)
         (root / d1 / d2 / f).write_text("x\n")
-        gi = root / ".gitignore" if origin_is_root else root / d1 / ".gitignore"
+        if gi_dir is not None:
+            (root / gi_dir / "k").mkdir(parents=True)
+            (root / gi_dir / "k" / "k.md").write_text("x\n")
+        gi = root / ".gitignore" if origin_is_root else root / (gi_dir if gi_dir is not None else d1) / ".gitignore"
         gi.write_text("\n".join(lines) + "\n")
         env = dict(os.environ, GIT_CONFIG_GLOBAL="/dev/null", GIT_CONFIG_SYSTEM="/dev/null", HOME=str(base))
         subprocess.run(["git", "init", "-q", str(root)], env=env, check=True, capture_output=True)
@@ -229,11 +249,12 @@ def main() -> int:
     try:
         templates = trace_templates(True)
         templates_off = trace_templates(False)
+        sib_templates = trace_templates(True, siblings=True)
         signal.alarm(0)
     except Exception as e:  # noqa: BLE001
         signal.alarm(0)
         harness.append(f"trace of _walk_directory failed: {type(e).__name__}: {e}")
-        templates, templates_off = [], []
+        templates, templates_off, sib_templates = [], [], []
     if not templates:
         harness.append("the traversal made no gitignore call on the marker tree (vacuous)")
     if templates_off:
@@ -281,6 +302,48 @@ def main() -> int:
                 m = s.model()
                 vals = [m.eval(v, model_completion=True).as_string() for v in (d1, d2, f)]
                 jobs.append(("refcheck", lines, origin == "", vals[0], vals[1], vals[2], None))  # type: ignore[arg-type]
+    # ---- scope: a .gitignore in one directory never reaches a sibling directory (visited before or after it)
+    scope_q = scope_sat = 0
+    scope_jobs: list[tuple[list[str], str, str, str, str]] = []
+    if sib_templates:
+        s1, s2, g = z3.String("s1"), z3.String("s2"), z3.String("g")
+        pre_s = [z3.InRe(s1, comp), z3.InRe(s2, comp), z3.InRe(g, fcomp), z3.InRe(d1, comp), s1 != d1]
+        for form, lines in files:
+            try:
+                il = _impl_langs(lines)
+            except re2smt.TranslationRefused:
+                continue
+            impl_sib = z3.Or([_decide(_template_term(arg, s1, s2, g, ("mkzfile.md", "mkzsib", "mkzsub")), il) for _o, arg in sib_templates] + [z3.BoolVal(False)])
+            s = z3.Solver()
+            s.set("timeout", 30000)
+            s.add(*pre_s, impl_sib)
+            t1 = time.time()
+            r = s.check()
+            solver_s += time.time() - t1
+            scope_q += 1
+            if r == z3.sat:
+                scope_sat += 1
+                m = s.model()
+                scope_jobs.append((lines, *[m.eval(v, model_completion=True).as_string() for v in (d1, s1, s2, g)]))  # type: ignore[arg-type]
+            elif r != z3.unsat:
+                harness.append(f"solver unknown for the scope query of {lines}")
+    scope_confirmed = 0
+    for lines, gd, a, b, c in scope_jobs[:40]:
+        # the sibling directory must sort after the .gitignore's directory for an upward leak to be visible
+        for gdir, sib in ((gd, a), (min(gd, a), max(gd, a))):
+            if gdir == sib:
+                continue
+            rr = replay(lines, False, sib, b, c, gi_dir=gdir)
+            if rr.get("hang") or rr["git_ignored"]:
+                continue
+            if not rr["listed"]:
+                scope_confirmed += 1
+                findings.append(C.Finding("C18", "gitignore/scope[nested-file-reaches-sibling-directory]",
+                                          f".gitignore {lines} in {gdir}/ hides {sib}/{b}/{c}, which git keeps (a nested .gitignore only applies below its own directory)",
+                                          {"op": "c18", "lines": lines, "origin_root": False, "d1": sib, "d2": b, "f": c, "respect": True, "gi_dir": gdir}))
+                break
+        if scope_confirmed:
+            break
     # ---- replay
     confirmed = ref_errors = checked = 0
     for form, lines, at_root, a, b, c, impl_says in jobs:
@@ -339,6 +402,8 @@ def main() -> int:
         samples_note="each sample: a .gitignore, where it sits, the path z3 produced, what git and flowmark said",
         templates=[list(t) for t in templates],
         templates_no_respect=[list(t) for t in templates_off],
+        sibling_scope={"calls_on_a_nested_spec_about_a_sibling_branch": [list(t) for t in sib_templates], "queries": scope_q, "sat": scope_sat, "confirmed": scope_confirmed,
+                       "note": "marker tree with a branch visited before and one visited after the directory holding the .gitignore; no such call = nothing to ask the solver"},
         queries=nq, unsat=nunsat, sat=nsat, refused=nrefused, confirmed_disagreements=confirmed, reference_errors=ref_errors,
         solver_s=round(solver_s, 2),
         bounds=f"path components over [abx]{{1,{MAXC}}}, file name [abx]{{1,{MAXC}}}.md, two directory levels; .gitignore of one or two lines from the grammar in gitignores(); placed at the traversal root or one level down",
@@ -351,7 +416,7 @@ def main() -> int:
 
 def replay_file(doc: dict[str, Any]) -> int:
     r = doc["replay"]
-    rr = replay(r["lines"], r["origin_root"], r["d1"], r["d2"], r["f"], r.get("respect", True))
+    rr = replay(r["lines"], r["origin_root"], r["d1"], r["d2"], r["f"], r.get("respect", True), gi_dir=r.get("gi_dir"))
     print(rr)
     if rr.get("hang"):
         return 1
